@@ -87,6 +87,13 @@ def cases(tier, seed):
         DB = DA if rng.random() < 0.5 else rng.choice(dens)
         out.append(dict(kind='fork-rat', op=rng.choice(['+', '-', '*', '/']), NA=[list(x) for x in NA], DA=[list(x) for x in DA],
                         NB=[list(x) for x in NB], DB=[list(x) for x in DB], fork=True))
+    # operands ACCUMULATED from a zero polynomial (sum(terms, Polynomial(0))): whatever representation that leaves behind
+    # denotes the same function, for ==, bool and every operation
+    for i in range(40 if tier == 'quick' else 300):
+        A = chgen.sort_shape(rng.sample([mm for mm in mons if mm], rng.randint(1, 3)))
+        B = chgen.sort_shape(rng.sample(mons, rng.randint(1, 3)))
+        out.append(dict(kind='fork-poly', op=rng.choice(['+', '-', '*', '*']), A=[list(x) for x in A], B=[list(x) for x in B], fork=True,
+                        accumulate=rng.choice(['int0', 'float0', 'args0'])))
     # variable names whose concatenations are ambiguous (a*a*bb vs a*ab*b vs aab*b): whatever identifies a monomial must
     # be the TUPLE of names
     amb = [('a',), ('ab',), ('b',), ('bb',), ('aab',), ('a', 'ab'), ('a', 'bb'), ('ab', 'b'), ('a', 'a'), ('aab', 'b'), ('a', 'a', 'bb'), ('a', 'ab', 'b')]
@@ -258,10 +265,28 @@ def run_case(desc, V):
             for mono in A.args + B.args:
                 sym.cur().assume(mono[0].t != 0)           # class invariant: no stored zero
         op = desc['op']
-        dA, dB = _pd(A), _pd(B)
+        extra_claims = []
+        if desc.get('accumulate'):
+            terms = [Polynomial([list(mono)]) for mono in A.args]
+            acc = {'int0': lambda: Polynomial(0), 'float0': lambda: Polynomial(0.0), 'args0': lambda: Polynomial([[0]])}[desc['accumulate']]()
+            for t in terms:
+                acc = acc + t
+            want_A = _pd(A)
+            extra_claims += _dclaims('accumulated', _pd(acc), want_A)
+            if acc == 0:
+                extra_claims += [Eq(f'accumulated==0=>zero[{"*".join(k) or "1"}]', v, 0) for k, v in want_A.items()]
+            if not bool(acc):
+                extra_claims += [Eq(f'accumulated-falsy=>zero[{"*".join(k) or "1"}]', v, 0) for k, v in want_A.items()]
+            # B (op) accumulated and accumulated (op) B
+            dB_ = _pd(B)
+            rb = B + acc if op == '+' else (B - acc if op == '-' else B * acc)
+            wb = _dadd(dB_, want_A) if op == '+' else (_dadd(dB_, want_A, -1) if op == '-' else _dmul(dB_, want_A))
+            extra_claims += _dclaims(f'B{op}accumulated', _pd(rb), wb)
+            A = acc
+        dA, dB = (_pd(A) if not desc.get('accumulate') else want_A), _pd(B)
         r = A + B if op == '+' else (A - B if op == '-' else A * B)
         want = _dadd(dA, dB) if op == '+' else (_dadd(dA, dB, -1) if op == '-' else _dmul(dA, dB))
-        claims = _dclaims(f'poly{op}', _pd(r), want)
+        claims = extra_claims + _dclaims(f'poly{op}', _pd(r), want)
         # zero tests on this path: bool(r) must agree with 'all coefficients zero'
         nz = bool(r)
         if not nz:
